@@ -245,6 +245,17 @@ func one(v Vec, kind string, cli bool) string {
 				return "cache reopen after CLI: " + err.Error()
 			}
 		} else {
+			// the entity is in memory (somebody looked at it in this session) or only listed: removal is the same thing
+			if len(v.Before.Tref)%2 == 1 {
+				if kind == "bug" {
+					_, err = c.Bugs().Resolve(T.id)
+				} else {
+					_, err = c.Identities().Resolve(T.id)
+				}
+				if err != nil {
+					return "resolving the entity before its removal: " + err.Error()
+				}
+			}
 			remove := func() error {
 				if kind == "bug" {
 					return c.Bugs().Remove(T.id.String())
